@@ -55,6 +55,7 @@ type cellT struct {
 	MS      string `json:"ms"`
 	TS      string `json:"ts"`
 	Ord     string `json:"ord"`
+	Shape   string `json:"shape,omitempty"` // "std" (default) | "noListen" | "noTarget": M without a listen / target client
 	Keyless bool   `json:"keyless,omitempty"`
 }
 
@@ -123,7 +124,7 @@ func (w *world) close() {
 	}
 }
 
-func newWorld(twoNodes, crossNode, keyless bool) (*world, error) {
+func newWorld(twoNodes, crossNode, keyless bool, shape string) (*world, error) {
 	w := &world{nodes: map[string]*srvkit.Server{}, tun: map[string]*srvkit.Tunnels{}, cl: map[string]client{}, parties: map[string]*party{}}
 	a, err := srvkit.NewServer(srvkit.Options{NodeID: "node-A"})
 	if err != nil {
@@ -174,7 +175,14 @@ func newWorld(twoNodes, crossNode, keyless bool) (*world, error) {
 	if keyless {
 		w.secret = ""
 	}
-	m, err := w.tun["A"].CreateMapping(w.cl["L"].id, w.cl["T"].id, w.secret)
+	lid, tid := w.cl["L"].id, w.cl["T"].id
+	switch shape {
+	case "noListen": // server-ingress / HTTP-domain mappings have no listen client
+		lid = 0
+	case "noTarget":
+		tid = 0
+	}
+	m, err := w.tun["A"].CreateMapping(lid, tid, w.secret)
 	if err != nil {
 		w.close()
 		return nil, err
@@ -200,15 +208,21 @@ func (w *world) setMap(ms string) error {
 	case "active":
 		return nil
 	case "revoked":
-		return t.Revoke(w.m, w.cl["L"].id)
+		if err := t.Revoke(w.m, w.cl["L"].id); err != nil { // a party of the mapping revokes it
+			return t.Revoke(w.m, w.cl["T"].id)
+		}
+		return nil
 	case "expired":
 		return t.Expire(w.m)
 	case "inactive":
 		return t.Deactivate(w.m)
 	case "missing":
 		return t.Delete(w.m)
+	case "":
+		return fmt.Errorf("empty mapping state")
 	}
-	return fmt.Errorf("mapping state %q?", ms)
+	// any other status string: models.MappingStatusError ("error"), a free-form one ("suspended")
+	return t.SetStatus(w.m, ms)
 }
 
 // login brings the connection to the identity of the cell through the real handshake.
@@ -377,6 +391,9 @@ func (w *world) open(st stepT, cell cellT, t *fw.Trace) (err error) {
 	p.ev = fw.Event{"ev": "Open", "who": st.Who, "id": st.ID, "cred": st.Cred, "ms": ms, "ts": ts, "tm": tm, "node": st.Node, "via": st.Via}
 	if cell.Keyless {
 		p.ev["keyless"] = true
+	}
+	if cell.Shape != "" && cell.Shape != "std" {
+		p.ev["shape"] = cell.Shape
 	}
 	req := w.request(st.Cred)
 	send := func() error {
@@ -557,7 +574,7 @@ func drive(env *fw.Env, b fw.Behaviour) *fw.Trace {
 			two = true
 		}
 	}
-	w, err := newWorld(two, strings.HasPrefix(beh.Cell.TS, "late"), beh.Cell.Keyless)
+	w, err := newWorld(two, strings.HasPrefix(beh.Cell.TS, "late"), beh.Cell.Keyless, beh.Cell.Shape)
 	if err != nil {
 		return &fw.Trace{Status: fw.DriverError, Note: "world: " + err.Error()}
 	}
@@ -730,6 +747,7 @@ func main() {
 			"the protocol adapter's read loop is emulated: HandlePacket per packet; transports are fake sockets whose inbound side the driver feeds (TCP-like: the transport does not know its client id)",
 			"quick tier: single node (no cross-node managers); thorough tier adds the 'remote' cells on two SessionManagers over one store with a loopback CrossNodeListener and TunnelConnectionManager",
 			"mapping M always has a non-empty secret except in the driver-made 'keyless' cells; resume tokens are bogus (the wired cloud control offers no resume validation)",
+			"mapping states error / suspended are status strings stored through UpdatePortMappingStatus; mapping shapes noListen / noTarget (ListenClientID / TargetClientID = 0) are crossed with identity x credential x mapping state at tunnel state none only (no client can legitimately create their bridge)",
 			"identity none = no handshake at all, noneHs = a handshake that announced the listen client's id and failed the challenge",
 		},
 		TrustedBase: []string{"TLC", "spec/TunnelOpenTrace.tla as the reading of the C04 statement", "srvkit fake transports (Duplex) and server assembly (tunnels.go)"},
